@@ -109,6 +109,22 @@ func TestVerif_C05u(t *testing.T) {
 		if r.Chance(1, 2) {
 			o["status"] = map[string]interface{}{"phase": "Running", "n": int64(r.Intn(3))}
 		}
+		if r.Chance(1, 6) {
+			// fields present with an explicit null (typed structs serialise unset times that way; a
+			// schemaless custom resource may hold "status": null): present is present, they stay as observed
+			switch r.Intn(4) {
+			case 0:
+				md["creationTimestamp"] = nil
+			case 1:
+				md["deletionTimestamp"] = nil
+			case 2:
+				o["status"] = nil
+			default:
+				md["creationTimestamp"], md["selfLink"] = nil, nil
+				o["status"] = nil
+			}
+			feature += "+observed-null-fields"
+		}
 		// desired: what a hook returns (sometimes echoing system fields, status, its own annotation)
 		dmd := map[string]interface{}{"name": "c"}
 		if r.Chance(1, 3) {
